@@ -369,6 +369,8 @@ class Engine:
     def s_Assert(self, node, st):
         c = self.truthy(self.eval(node.test, st))
         self.raise_if(st, z3.Not(c), "AssertionError", node.lineno)
+        for nm, rv in self.refinements(node.test, st, True).items():  # past the assert the test holds
+            st.env[nm] = rv
         return [(st, None)]
 
     def refinements(self, test: ast.expr, st: State, positive: bool) -> dict[str, Val]:
@@ -383,6 +385,9 @@ class Engine:
             t = test.args[1]
             names = [t.id] if isinstance(t, ast.Name) else [e.id for e in t.elts if isinstance(e, ast.Name)] \
                 if isinstance(t, ast.Tuple) else []
+            if isinstance(v.ty, TOpt) and positive and names:
+                # isinstance(x, T) holds on an Optional[E]: x is not None (whether E is a T is decided by _isinst)
+                out[test.args[0].id] = Val(v.ty.elem, v.ty.val(v.t), v.mut)
             if isinstance(v.ty, TUnion):
                 tags = [tg for tg, _ in v.ty.alts]
                 hit = [n for n in names if n in tags]
@@ -973,7 +978,23 @@ class Engine:
         raise Unsupported("unary op", node)
 
     def e_BoolOp(self, node, st):
-        # value semantics of and/or are only modelled for boolean contexts
+        # `x or default` with a non-boolean x: the value is x if x is truthy, else the default
+        if isinstance(node.op, ast.Or) and len(node.values) == 2:
+            x = self.eval(node.values[0], st)
+            if x.ty is not TBool:
+                want = x.ty.elem if isinstance(x.ty, TOpt) else x.ty
+                saved = list(st.guards)
+                tx = self.truthy(x)
+                st.guards.append(z3.Not(tx))
+                try:
+                    y = self.eval(node.values[1], st, hint=want) if isinstance(node.values[1], (ast.Dict, ast.List, ast.Tuple)) \
+                        else self.eval(node.values[1], st)
+                finally:
+                    st.guards[:] = saved
+                y = self.coerce(y, want, st, node)
+                xv = Val(want, x.ty.val(x.t), x.mut) if isinstance(x.ty, TOpt) else x
+                return Val(want, z3.If(tx, xv.t, y.t), True)
+        # otherwise the value semantics of and/or are only modelled for boolean contexts
         terms = []
         saved = list(st.guards)
         for e in node.values:
@@ -1352,6 +1373,8 @@ class Engine:
             t = self.truthy(self.eval(c, inner))
             cond = t if cond is None else z3.And(cond, t)
             inner.guards.append(t)
+            for nm, rv in self.refinements(c, inner, True).items():  # `... for x in xs if x is not None`
+                inner.env[nm] = rv
         if isinstance(node, ast.DictComp):
             e = (self.eval(node.key, inner), self.eval(node.value, inner))
         else:
@@ -1445,16 +1468,30 @@ class Engine:
                                         patterns=[z3.Select(C, j), z3.Select(M, j)]))
                     st.assume(z3.ForAll([j], z3.Implies(j >= 0, f_cnt(C, j) == j - f_cnt(M, j)),
                                         patterns=[f_cnt(C, j), f_cnt(M, j)]))
+            src = []
             if C is None:
                 C = z3.Const(fresh_name("flt"), z3.ArraySort(z3.IntSort(), z3.BoolSort()))
-                st.assume(z3.ForAll([j], z3.Implies(z3.And(0 <= j, j < n),
-                                                    z3.Select(C, j) == z3.substitute(cond, (ic, j))),
-                                    patterns=[z3.Select(C, j)]))
+                cond_j = z3.substitute(cond, (ic, j))
+                # (also triggered from the source side: a ground xs[t] makes flt[t] known)
+                src = [x for x in _select_subterms(cond_j, j) if not _has_ite(x)][:1]
+                st.assume(z3.ForAll([j], z3.Implies(z3.And(0 <= j, j < n), z3.Select(C, j) == cond_j),
+                                    patterns=[z3.Select(C, j), *src]))
             cj = z3.Select(C, j)
             st.assume(ty.len(r.t) == f_cnt(C, z3.If(n > 0, n, 0)))
             st.assume(z3.ForAll([j], z3.Implies(z3.And(0 <= j, j < n, cj),
                                                 z3.Select(ty.arr(r.t), f_cnt(C, j)) == z3.substitute(e.t, (ic, j))),
                                 patterns=[f_cnt(C, j), z3.Select(C, j)]))
+            # every element of the result comes from a source position that passed the filter (ghost inverse `src_of`)
+            src_of = z3.Function(fresh_name("srcof"), z3.IntSort(), z3.IntSort())
+            t_ = z3.Int(fresh_name("ct"))
+            rt = z3.Select(ty.arr(r.t), t_)
+            st.assume(z3.ForAll([t_], z3.Implies(z3.And(0 <= t_, t_ < ty.len(r.t)),
+                                                 z3.And(0 <= src_of(t_), src_of(t_) < n, z3.Select(C, src_of(t_)),
+                                                        f_cnt(C, src_of(t_)) == t_)), patterns=[rt, src_of(t_)]))
+            # the result is empty iff nothing passes the filter (ground instance at t = 0, and the converse)
+            st.assume(z3.Implies(ty.len(r.t) > 0, z3.And(0 <= src_of(0), src_of(0) < n, z3.Select(C, src_of(0)))))
+            st.assume(z3.Implies(ty.len(r.t) == 0, z3.ForAll([j], z3.Implies(z3.And(0 <= j, j < n), z3.Not(cj)),
+                                                             patterns=[cj])))
             self.last_filter = C
         st.pc += ty.wf(r.t)
         return r
@@ -1702,6 +1739,23 @@ class Engine:
             return self.dict_order(v, st)
         raise Unsupported(f"sequence conversion of {v.ty}", node)
 
+    def b_set(self, node, st, hint=None):
+        """set(seq): membership = occurrence in the sequence; the ghost cardinality is characterised as zero iff empty."""
+        if len(node.args) != 1:
+            raise Unsupported("set() form", node)
+        sq = self._as_seq(self.eval(node.args[0], st), st, node)
+        ty = TSet(sq.ty.elem)
+        r = ty.fresh("set")
+        k = z3.Const(fresh_name("sk"), ty.key.sort())
+        i = z3.Int(fresh_name("si"))
+        n = sq.ty.len(sq.t)
+        occurs = z3.Exists([i], z3.And(0 <= i, i < n, z3.Select(sq.ty.arr(sq.t), i) == k))
+        st.assume(z3.ForAll([k], z3.Select(ty.mem(r.t), k) == occurs, patterns=[z3.Select(ty.mem(r.t), k)]))
+        si = z3.Select(sq.ty.arr(sq.t), i)
+        st.assume(z3.ForAll([i], z3.Implies(z3.And(0 <= i, i < n), z3.Select(ty.mem(r.t), si)), patterns=[si]))
+        st.assume(z3.And(ty.card(r.t) >= 0, (ty.card(r.t) == 0) == (n == 0)))
+        return r
+
     def b_tuple(self, node, st, hint=None):
         if not node.args:
             raise Unsupported("tuple()", node)
@@ -1727,6 +1781,9 @@ class Engine:
 
     def _isinst(self, v: Val, nm: str, node):
         pyname = {"int": "int", "slice": "slice", "str": "str", "tuple": "tuple", "list": "list", "dict": "dict"}
+        if isinstance(v.ty, TOpt):  # None is an instance of none of the modelled classes
+            inner = self._isinst(Val(v.ty.elem, v.ty.val(v.t), v.mut), nm, node)
+            return z3.And(z3.Not(v.ty.is_none(v.t)), inner)
         if isinstance(v.ty, TUnion):
             tags = [t for t, _ in v.ty.alts]
             if nm in tags:
